@@ -991,6 +991,8 @@ def _read_asn1_integer(
         hint=hint,
     )
     b_int = bytearray(raw_int)
+    if not b_int:
+        raise ValueError("Invalid ASN.1 INTEGER value, expecting at least 1 octet")
 
     is_negative = b_int[0] & 0b10000000
     if is_negative:
